@@ -15,8 +15,8 @@ STORY_POOL = ['A', 'AB', 'C', 'D', 'E', 'F', 'G']
 ITEM_POOL = ['a', 'ab', 'c', 'd', 'e', 'f', 'g']
 RO_ID = 'RO1'
 # IDs that look like numbers, carry spaces, markup-significant and non-ASCII characters, differ only in case
-EXOTIC_IDS = ['10', '9', 'A', 'a', 'a b', 'x&y<z>', 'Ä\U0001F600']
-EXOTIC_QUICK = ['10', 'A', 'a', 'x&y< z>']
+EXOTIC_IDS = ['10', '9', 'A', 'a', 'a b', 'x&y<z>', 'Ä\U0001F600', 'q\'"]=[', ' lead', 'trail ']
+EXOTIC_QUICK = ['10', 'A', 'a', 'x&y< z>\'"]']
 
 SPECIAL = 'x&y<z>"q\' é\U0001F600é'     # markup-significant, non-BMP, combining
 
@@ -92,6 +92,11 @@ def item_xml(iid, variant=0, owner='', rich=False, tag='item', fields=('slug',))
     label = f'{ref_name(iid)}@{owner} v{variant}'
     if 'slug' in fields:
         parts.append(f'<itemSlug>{escape(label)}</itemSlug>')
+    for f_, tag_ in (('slug-blank', 'itemSlug'), ('objID-blank', 'objID'), ('mosID-blank', 'mosID'), ('objType-blank', 'objType')):
+        if f_ in fields:
+            parts.append(f'<{tag_}/>')
+    if 'note-blank' in fields:
+        parts.append(mem_xml('note.schema', '<studioCommands><studioCommand type="note"><text/></studioCommand></studioCommands>'))
     if 'objID' in fields:
         parts.append(f'<objID>obj-{escape(label)}</objID>')
     if 'mosID' in fields:
@@ -152,7 +157,10 @@ def body_xml(body, owner, rich=False, item_tag='item'):
         elif tok[0] == 'p':
             out.append(p_xml(tok[1], label=f'text of {owner} #{len(out)}'))
         elif tok[0] == 'x':
-            out.append(f'<foreign n="{tok[1]}">f{tok[1]}<inner/>t</foreign>')
+            # a foreign element that HOLDS a paragraph and an item (same item ID as a real one): only direct
+            # children of the story are its paragraphs and items
+            out.append(f'<foreign n="{tok[1]}">f{tok[1]}<p>hidden paragraph {tok[1]}</p><item><itemID>a</itemID>'
+                       f'<itemSlug>hidden in foreign {tok[1]}</itemSlug></item><inner/>t</foreign>')
         else:
             raise ValueError(tok)
     return ''.join(out)
@@ -163,7 +171,9 @@ def story_xml(sid, variant=0, body=(('p', 'plain'),), timing='dur', rich=False,
     """A <story> element with id, slug, timing metadata and body."""
     owner = ref_name(sid)
     parts = [id_tag('storyID', sid)]
-    if slug:
+    if slug == 'blank':
+        parts.append('<storySlug/>')
+    elif slug:
         parts.append(f'<storySlug>{escape(owner)} slug v{variant}</storySlug>')
     if timing != 'nometa':
         attrs = f' owner={quoteattr(owner + SPECIAL)}' if rich else ''
@@ -186,8 +196,12 @@ def meta_elems(n=3, variant=0, edstart=True):
         elems.append('<roEdStart>2020-01-01T12:30:00</roEdStart>')
     elif edstart == 'empty':
         elems.append('<roEdStart/>')
-    elems.append(mem_xml('ro.schema.1', f'<roNote v="{variant}">note one</roNote>'))
-    elems.append(mem_xml('ro.schema.2', f'<roNote v="{variant}">note two</roNote>'))
+    # decoys: a completion-shaped record and a <story> (with the ID of a real story) buried in metadata - only a
+    # mosromgrmeta child of the root completes a running order, only direct children of roCreate are its stories
+    elems.append(mem_xml('ro.schema.1', f'<roNote v="{variant}">note one</roNote>'
+                                        f'<mosromgrmeta><roDelete><roID>decoy</roID></roDelete></mosromgrmeta>'))
+    elems.append(mem_xml('ro.schema.2', f'<roNote v="{variant}">note two</roNote>'
+                                        f'<story><storyID>A</storyID><storySlug>hidden in metadata</storySlug></story>'))
     elems.append(f'<roChannel>chan{variant}</roChannel>')
     return elems[:n] if n is not None else elems
 
@@ -220,8 +234,13 @@ def rocreate_xml(stories, layout='before', meta=None, ro_id=RO_ID, tag='roCreate
     return f'<{tag}>{inner}</{tag}>'
 
 
-def ro_text(stories, layout='before', meta=None, ro_id=RO_ID, msg_id=1000):
-    return envelope(rocreate_xml(stories, layout, meta, ro_id), msg_id=msg_id)
+def ro_text(stories, layout='before', meta=None, ro_id=RO_ID, msg_id=1000, envelope_variant='std'):
+    body = rocreate_xml(stories, layout, meta, ro_id)
+    if envelope_variant == 'trailing':
+        # roCreate is neither the last nor the fourth child of the root; no ncsID
+        return (f'<mos><messageID>{msg_id}</messageID><mosID>m.os</mosID><extra k="v">before</extra>{body}'
+                f'<trailer>after<deep/></trailer></mos>')
+    return envelope(body, msg_id=msg_id)
 
 
 # ---------------------------------------------------------------- messages
